@@ -63,6 +63,11 @@ Example C11_example :
   multi_replay 2 3 [Recv 0; Recv 1; Finish 1; Recv 1; Finish 0; Finish 1; Recv 0; Recv 1]%nat = Some (true, [1; 0; 2]%nat, 2%nat, 3).
 Proof. vm_compute. reflexivity. Qed.
 
+(* obligation on the source order of process_entry (regenerated): the tool's own temporary names are skipped
+   before the entry is stat'ed, as Walk.process_entry assumes - a temporary file of a worker may vanish at any time *)
+Theorem C11_tmp_test_before_stat : walk_tmp_test_before_stat = true.
+Proof. reflexivity. Qed.
+
 Print Assumptions C11_every_job_once.
 Print Assumptions C11_no_deadlock.
 Print Assumptions C11_terminates.
@@ -70,3 +75,4 @@ Print Assumptions C11_parallel_equals_serial.
 Print Assumptions C11_totals.
 Print Assumptions C11_totals_as_serial.
 Print Assumptions C11_example.
+Print Assumptions C11_tmp_test_before_stat.
